@@ -184,14 +184,25 @@ def t3_case(case):
         rk_o[j] = mr[j] + 1
         g4 = spec.rand_tt(rng, rd, [1] * d, rk_o, kind)
         e0 = err_A(g4)
-        try:
-            r4 = run(g4, 1, **kw)
+        # the frames of an over-parameterised guess are rank deficient, so the micro matrices are singular.  LAPACK usually copes
+        # (tiny pivots; the null-space component of the micro solution is annihilated by the frame).  An exactly zero pivot
+        # makes `solve` raise and `lu` produce non-finite numbers: the solver then does not return an iterate at all - a
+        # separate obligation, so that the descent clause keeps its meaning for every iterate that is returned.
+        sig_s = '%s/over-parameterised-guess/singular-micro-system' % method
+        out = spec.isolated(lambda: run(g4, 1, **kw))        # (a singular system can also take the interpreter down inside LAPACK)
+        r4, e1 = None, None
+        if out[0] == 'ok':
+            r4 = out[1]
             e1 = err_A(r4)
-            c.add('post:descent[over-parameterised-guess]', np.isfinite(e1) and e1 <= e0 * (1 + 1e-7) + 1e-9 * scale,
+            if not np.isfinite(e1):
+                c.add('post:returns-an-iterate[over-parameterised-guess]', False, 'guess ranks %s (maximal %s), row_dims %s: non-finite iterate' % (rk_o, mr, rd), sig=sig_s)
+                r4 = None
+        else:
+            c.add('post:returns-an-iterate[over-parameterised-guess]', False, 'guess ranks %s (maximal %s), row_dims %s: %s' % (rk_o, mr, rd, ' '.join(map(str, out))), sig=sig_s)
+        if r4 is not None:
+            c.add('post:returns-an-iterate[over-parameterised-guess]', True, sig=sig_s)
+            c.add('post:descent[over-parameterised-guess]', e1 <= e0 * (1 + 1e-7) + 1e-9 * scale,
                   'energy errors %.6g -> %.6g' % (e0, e1), sig='%s/over-parameterised-guess' % method)
-        except Exception as e:  # noqa
-            c.add('post:descent[over-parameterised-guess]', False, 'guess ranks %s (maximal %s): %r' % (rk_o, mr, e),
-                  sig='%s/over-parameterised-guess' % method)
 
     # MALS rank cap ------------------------------------------------------------------------------------------------------
     if method == 'mals':
